@@ -400,3 +400,17 @@ impl WriteMessage for MessageWriter {
         }
     }
 }
+
+/// Verification hook: resolve a transport locator to socket addresses exactly like the sender does.
+#[cfg(feature = "verif-hooks")]
+pub fn verif_locator_to_socket_addrs(
+    locator: crate::transport::types::Locator,
+) -> std::io::Result<Vec<SocketAddr>> {
+    UdpLocator(locator).to_socket_addrs().map(|i| i.collect())
+}
+
+/// Verification hook: multicast classification of a transport locator as used by the sender.
+#[cfg(feature = "verif-hooks")]
+pub fn verif_locator_is_multicast(locator: crate::transport::types::Locator) -> bool {
+    UdpLocator(locator).is_multicast()
+}
